@@ -124,6 +124,7 @@ def run():
     inline_scan_layer(ck, m, quick)
     link_syntax_layer(ck, m, quick)
     tag_syntax_layer(ck, m, quick)
+    inline_lines_layer(ck, m, quick)
     ck.extra['exhaustive_strings'] = n_exh
     # random strings over the wide alphabet: TLC computes the expected structure of their class strings in batch
     n_rand = 4000 if quick else 100000
@@ -263,6 +264,60 @@ def link_syntax_layer(ck, m, quick):
     ck.extra['link_syntax_tails_that_are_links'] = links
 
 
+LINE_ALPHABETS = {'N1': ['a', '`'], 'N2': ['a', '*'], 'N3': ['a', '\\', '*']}      # first characters (a text begins with no space or line end)
+
+
+def observed_paragraph(m, text):
+    try:
+        with m.HtmlRenderer() as r:
+            o = r.render(m.Document(text + '\n'))
+    except Exception as e:
+        return 'EXCEPTION ' + e.__class__.__name__
+    if o.startswith('<p>') and o.endswith('</p>\n') and o.count('<p>') == 1:
+        return o[3:-5]
+    return 'NOT-ONE-PARAGRAPH ' + o
+
+
+def inline_lines_layer(ck, m, quick):
+    """spec/InlineLines.tla: inline content that spans lines - the paragraph level strips the indentation of continuation lines, a line
+    end inside a code span is a space, spaces before a line end are dropped, two or more of them or a backslash make a hard line break;
+    emphasis across lines.  Every one-paragraph text up to 8 / 9 (7 / 8 with backslashes) characters over three alphabets with a line end."""
+    jobs = [('InlineLines%s%s.cfg' % (a, 'q' if quick else 't'), ch) for a, chars in sorted(LINE_ALPHABETS.items()) for ch in chars]
+
+    def one(job):
+        cfg, sh = job
+        return core.tlc('InlineLines', cfg, workers=1, env={'SHARD': sh}, timeout=3000, heap='2g')
+    with ThreadPoolExecutor(max_workers=core.NCPU) as ex:
+        results = list(ex.map(one, jobs))
+    n = multi = skipped = 0
+    seen = set()
+    for res in results:
+        ck.add_tlc(res)
+        for rec in res.printed_json():
+            text = rec['input']
+            if text in seen:
+                continue
+            seen.add(text)
+            if set(rec['tags']) & INLINE_UNSETTLED:
+                skipped += 1
+                continue
+            got = observed_paragraph(m, text)
+            ck.count(('inline-lines', text) if '\n' in text else None)
+            n += 1
+            multi += '\n' in text
+            ck.traces += 1
+            if n % 4099 == 1:
+                ck.sample({'input': text, 'expected': rec['html'], 'observed': got})
+            if got != rec['html']:
+                ck.violation('inline content across lines: input=%r expected=%r observed=%r' % (text, rec['html'], got),
+                             {'input': text, 'expected': rec['html'], 'observed': got, 'classes': sorted(rec['tags']),
+                              'clause': 'Inline.lines' if not got.startswith('EXCEPTION') else 'Emphasis.failure'})
+    if n < 30000 or multi < 10000:
+        raise core.MachineryError('InlineLines.tla exported only %d texts (%d of several lines)' % (n, multi))
+    ck.extra['inline_lines_texts'] = n
+    ck.extra['inline_lines_texts_of_several_lines'] = multi
+
+
 TAG_ALPHABETS = {'T1': ['a', ' ', '=', '"', "'", '>'], 'T2': ['a', '=', '/', '>', ' ', '`']}
 
 
@@ -330,6 +385,6 @@ def batch(ck, recs, shard=2500):
 def replay(path):
     rep = json.load(open(path))['replay']
     m = core.impl()
-    got = observed(m, rep['input'])
+    got = notation(observed_paragraph(m, rep['input']) if rep.get('clause') == 'Inline.lines' else observed(m, rep['input']))
     print('input=%r expected=%r observed=%r' % (rep['input'], rep['expected'], got))
     return 0 if got == rep['expected'] else 1
